@@ -20,7 +20,6 @@ def spec (cs : Case) (i : Impl) : Bool :=
   | some t =>
     let ar : Int := cs.ar
     let aq : Int := cs.aq
-    let started := cs.sched.any (fun l => match l with | .work => true | _ => false)
     ar ≤ i.ret && i.ret ≤ ar + 1 && aq ≤ i.req && i.req ≤ aq + 1 && 0 ≤ i.up
     && i.down == (if i.done then 0 else 1)
     && (!i.done || (i.ret == ar && i.req == aq && i.up == 0))
